@@ -589,6 +589,12 @@ PB(n, s, c) ==
                     ELSE RErr("ChecksumError", data.s, data.c, <<>>)))
       [] n.k = "ExprValidator" ->
             Then(P(n.sub, s, c), LAMBDA r :
+                IF n.mode = "expr" THEN      \* any predicate over obj_ and the context: admitted iff its value is truthy
+                    LET pr == Eval(n.f, r.v, VList(<<>>), r.c) IN
+                    IF ~pr.ok THEN RErr(pr.err, r.s, r.c, <<>>)
+                    ELSE IF pr.v.t \in {"frame", "opaque"} THEN RErr(OutOfModel, r.s, r.c, <<>>)
+                    ELSE IF Truthy(pr.v) THEN ROk(r.v, r.s, r.c, <<>>) ELSE RErr("ValidationError", r.s, r.c, <<>>)
+                ELSE
                 LET inside == PyIn(r.v, n.vals)
                     good == IF n.mode = "oneof" THEN inside ELSE ~inside
                 IN IF good THEN ROk(r.v, r.s, r.c, <<>>) ELSE RErr("ValidationError", r.s, r.c, <<>>))
@@ -1060,10 +1066,17 @@ BB(n, obj, s, c) ==
                  IF ~x.ok THEN RErr(OutOfModel, s, r.c, r.ev)
                  ELSE [ Then(SWrite(s, r.c, x.v, Len(x.v.b)), LAMBDA w : ROk(obj, w.s, w.c, <<>>)) EXCEPT !.ev = r.ev \o @ ]
       [] n.k = "ExprValidator" ->
+            IF obj.t \in {"opaque", "frame"} THEN RErr(OutOfModel, s, c, <<>>)
+            ELSE IF n.mode = "expr" THEN
+                LET pr == Eval(n.f, obj, VList(<<>>), c) IN
+                IF ~pr.ok THEN RErr(pr.err, s, c, <<>>)
+                ELSE IF pr.v.t \in {"frame", "opaque"} THEN RErr(OutOfModel, s, c, <<>>)
+                ELSE IF ~Truthy(pr.v) THEN RErr("ValidationError", s, c, <<>>)
+                ELSE Then(B(n.sub, obj, s, c), LAMBDA r : ROk(obj, r.s, r.c, <<>>))
+            ELSE
             LET inside == PyIn(obj, n.vals)
                 good == IF n.mode = "oneof" THEN inside ELSE ~inside
-            IN IF obj.t \in {"opaque", "frame"} THEN RErr(OutOfModel, s, c, <<>>)
-               ELSE IF ~good THEN RErr("ValidationError", s, c, <<>>)
+            IN IF ~good THEN RErr("ValidationError", s, c, <<>>)
                ELSE Then(B(n.sub, obj, s, c), LAMBDA r : ROk(obj, r.s, r.c, <<>>))
       [] n.k \in {"Hex", "HexDump"} -> Then(B(n.sub, obj, s, c), LAMBDA r : ROk(obj, r.s, r.c, <<>>))
       [] n.k = "LazyBound" ->
